@@ -172,14 +172,14 @@ pub mod u3v {
                 let scd_len = u16at(8) as usize;
                 let req_id = u16at(10);
                 self.cur_req = (cmd_id, req_id);
-                if cmd.len() != 12 + scd_len {
+                if cmd.len() != 12 + scd_len || u16at(4) != 0x4000 {
                     return Self::ack(0x8002, cmd_id.wrapping_add(1), req_id, &[]);
                 }
                 let scd = &cmd[12..];
                 match cmd_id {
                     0x0800 => {
                         // ReadMem: address u64, reserved u16, length u16
-                        if scd.len() != 12 {
+                        if scd.len() != 12 || scd[8] != 0 || scd[9] != 0 {
                             return Self::ack(0x8002, 0x0801, req_id, &[]);
                         }
                         let addr = u64::from_le_bytes([scd[0], scd[1], scd[2], scd[3], scd[4], scd[5], scd[6], scd[7]]);
